@@ -41,6 +41,9 @@ SHAPES = {
     "wsh-sortedmulti-16": ("wsh(sortedmulti(2,{0},{1},{2},{3},{4},{5},{6},{7},{8},{9},{10},{11},{12},{13},{14},{15}))", False, False, 2),
     "sh-wsh-multi-16": ("sh(wsh(multi(1,{4},{5},{6},{7},{8},{9},{10},{11},{12},{13},{14},{15},{3},{1},{2},{0})))", False, False, 1),
     "wsh-multi-15": ("wsh(multi(3,{0},{1},{2},{3},{4},{5},{6},{7},{8},{9},{10},{11},{12},{13},{14}))", False, False, 3),
+    # legacy p2sh redeem scripts pushed with OP_PUSHDATA2 (above 255 bytes; 520 is the most p2sh allows: 15 keys = 513)
+    "sh-multi-8": ("sh(multi(1,{4},{5},{6},{7},{0},{8},{9},{3}))", True, False, 1),
+    "sh-sortedmulti-15": ("sh(sortedmulti(2,{0},{1},{3},{4},{5},{6},{7},{8},{9},{10},{11},{12},{13},{14},{15}))", True, False, 2),
     "wsh-mini-older": ("wsh(and_v(v:pk({0}),older(10)))", False, False, 1),
     "wsh-mini-or": ("wsh(or_d(pk({0}),and_v(v:pk({1}),after(100))))", False, False, 1),
     "wsh-mini-thresh": ("wsh(thresh(2,pk({0}),s:pk({1}),s:pk({2})))", False, False, 2),
